@@ -154,8 +154,7 @@ TEXT["C20"] = {
              "text/template/parse and by reflection over the value captured inside a real executeTemplate call — passes the checker against the schema refined by the status invariant "
              "(shipped_templates_check, shipped_templates_render); the invariant (a listed partition is non-nil with non-nil Start/End) is proved of the evaluator model for every window, clock and "
              "threshold (problem_partition_has_ends, notifier_view_meets_invariant) and composed (every_status_renders); the data offers exactly Cluster, Group, ID, Start, Extras, Result and the "
-             "nine documented helpers (data_offers_documented_fields, helpers_offered). JSON clause: partial — the model's rendering of the HTTP and Slack templates is judged by a Lean JSON "
-             "recogniser (Model/Json.lean) that is compared with json.Valid on every real rendering of the run; no substitution theorem yet. Tie: real executeTemplate vs the compiled model on "
+             "nine documented helpers (data_offers_documented_fields, helpers_offered). JSON clause: proved — an abstract interpreter (Model/TmplFlow.lean: jsonOk) reads a template as JSON with typed holes, running a JSON pushdown recogniser (Model/Json.lean) over the text; flow_sound/json_sound (Proofs/TmplJson.lean) prove that whatever exec renders for an accepted template is accepted by the recogniser for EVERY value of the data type whose strings are JSON-safe and whose floats are finite, using stack-extension and safe-string lemmas about the automaton (Proofs/JsonPda.lean) and the decimal-digit lemmas of core Lean for printed integers; `decide` shows the four shipped HTTP/Slack templates are accepted (shipped_json_templates_flow), hence shipped_json_templates_wellformed and, composed with the evaluator, every_status_renders_json. The theorem's assumptions about Go's own renderers (EnvOk: time.Format output JSON-safe, %v of a finite float32 a JSON number, json.Marshal output a JSON text) are evaluated by the driver on every real rendering of the run (spec tag envok), and the recogniser itself is compared with json.Valid on every real rendering. Tie: real executeTemplate vs the compiled model on "
              "shipped and generated templates, comparing error/no-error and the rendered bytes. A genuine defect (default-http-delete.tmpl used .Id) was found this way and repaired."),
     "note": ("Trusted: Lean kernel + 3 standard axioms; the text/template model for the fragment in use (anything else is `unsup` and rejected by the checker); the fact generator (harness facts); "
              "Go's fmt/time/json renderings are parameters. Not modelled: templates with define/with/variables/parenthesised pipelines (rejected, reported as broken obligation if a shipped template "
